@@ -10,7 +10,7 @@ let hex8_of_z (b:z) : string = Printf.sprintf "%08x" (int_of_z b)
 let kind_of = function
   | "P" -> KP | "F" -> KF | "I" -> KI | "O" | "OE" -> KO | "T" -> KT
   | "S1" -> KS (z_of_int 1) | "S5" -> KS (z_of_int 5) | "S16" -> KS (z_of_int 16)
-  | "AI" | "PA" -> KAI | "AF" -> KAF | "AO" -> KAO | "AT" -> KAT
+  | "AI" | "PA" | "AIW" -> KAI | "AF" -> KAF | "AO" -> KAO | "AT" -> KAT
   | "PS" -> KPS (z_of_int 16)
   | "CO" -> KCO | "ATM" -> KATM
   | _ -> failwith "kind"
